@@ -575,8 +575,8 @@ fn mutations_for(tier: Tier, h: u64, orig: u8) -> Vec<u8> {
 
 pub fn worker(ctx: &WorkerCtx) -> WorkerResult {
     let images = match ctx.tier {
-        Tier::Quick => 16u64,
-        Tier::Thorough => 160,
+        Tier::Quick => 64u64,
+        Tier::Thorough => 320,
     };
     let images = std::env::var("VERIF_CASES").ok().and_then(|s| s.parse().ok()).unwrap_or(images);
     let budget_per_image: usize = match ctx.tier {
